@@ -53,7 +53,7 @@ Record tenv := { enums : list (list (list ty)); structs : list (list ty) }.
     (outermost first) around the original body, identified by its arm number *)
 Record body := { binds : list (N * name); arm : N }.
 
-Definition column := (name * pat)%type.
+Notation column := (name * pat)%type (only parsing).
 Record row := { cols : list column; rbody : body }.
 
 Inductive ctor := CEnum (e idx : N) | CStruct (s : N).
@@ -247,6 +247,28 @@ Fixpoint gensyms_list (ns : list nat) (s : st) : list (list name) * st :=
 
 Definition set_diag (s : st) : st := {| gen := gen s; diag := true |}.
 
+(** sequential compilation of the literal arms / constructor arms, threading the state
+    (the recursive call is a parameter so that these loops are ordinary functions) *)
+Fixpoint compile_lit_arms (rec : list row -> st -> core * st) (vr : list (lit * list row)) (s : st)
+  : list (lhs * core) * st :=
+  match vr with
+  | [] => ([], s)
+  | (l, rs) :: t =>
+      let '(k, s1) := rec rs s in
+      let '(ks, s2) := compile_lit_arms rec t s1 in
+      ((LhsLit l, k) :: ks, s2)
+  end.
+
+Fixpoint compile_enum_arms (rec : list row -> st -> core * st) (v : name) (e : N)
+  (cs : list (list row)) (vs : list (list name)) (idx : N) (s : st) : list (lhs * core) * st :=
+  match cs, vs with
+  | rs :: ct, xs :: vt =>
+      let '(k, s1) := rec rs s in
+      let '(ks, s2) := compile_enum_arms rec v e ct vt (idx + 1) s1 in
+      ((LhsEnum e idx xs, let_gets v (CEnum e idx) xs 0 k) :: ks, s2)
+  | _, _ => ([], s)
+  end.
+
 Section Compile.
 Variable E : tenv.
 
@@ -287,15 +309,7 @@ Fixpoint compile_rows (fuel : nat) (rows : list row) (s : st) : core * st :=
                     match df with
                     | [] => (KMissing, set_diag s)
                     | _ =>
-                      let '(arms, s1) :=
-                        (fix go (vr : list (lit * list row)) (s : st) : list (lhs * core) * st :=
-                           match vr with
-                           | [] => ([], s)
-                           | (l, rs) :: t =>
-                               let '(k, s1) := compile_rows fuel rs s in
-                               let '(ks, s2) := go t s1 in
-                               ((LhsLit l, k) :: ks, s2)
-                           end) vr s in
+                      let '(arms, s1) := compile_lit_arms (compile_rows fuel) vr s in
                       let '(kd, s2) := compile_rows fuel df s1 in
                       (KMatch v arms (Some kd), s2)
                     end
@@ -308,16 +322,7 @@ Fixpoint compile_rows (fuel : nat) (rows : list row) (s : st) : core * st :=
                     match split_enum v vars rows (map (fun _ => []) variants) with
                     | None => (KPanic 5, s1)
                     | Some cases =>
-                      let '(arms, s2) :=
-                        (fix go (cs : list (list row)) (vs : list (list name)) (idx : N) (s : st)
-                           : list (lhs * core) * st :=
-                           match cs, vs with
-                           | rs :: ct, xs :: vt =>
-                               let '(k, s1) := compile_rows fuel rs s in
-                               let '(ks, s2) := go ct vt (idx + 1) s1 in
-                               ((LhsEnum e idx xs, let_gets v (CEnum e idx) xs 0 k) :: ks, s2)
-                           | _, _ => ([], s)
-                           end) cases vars 0 s1 in
+                      let '(arms, s2) := compile_enum_arms (compile_rows fuel) v e cases vars 0 s1 in
                       (KMatch v arms None, s2)
                     end
                 end
